@@ -214,6 +214,17 @@ pub fn run(tier: Tier) -> i32 {
     let st = run_space(ex.len(), |i| check(&ex[i], "examples", &c1, &c2));
     rep.set("examples_corpus", json!(ex.len()));
     rep.absorb("examples", st);
+    // documents which are real SVG already (as other tools write them): output of a first pass is the document itself
+    let ns = "http://www.w3.org/2000/svg";
+    let real: Vec<String> = vec![
+        format!("<?xml version=\"1.0\" encoding=\"UTF-8\"?>\n<svg xmlns:xlink=\"http://www.w3.org/1999/xlink\" xmlns=\"{ns}\" width=\"10\"><rect width=\"5\" height=\"5\" id=\"a\"/><use xlink:href=\"#a\" x=\"5\"/></svg>\n"),
+        format!("<?xml-stylesheet href=\"a.css\"?>\n<!DOCTYPE svg>\n<svg xmlns:a=\"urn:a\" a:b=\"c\" xmlns=\"{ns}\"><text>a &amp; b</text></svg>\n<!-- trailing -->\n"),
+        format!("<svg version=\"1.1\" xmlns=\"{ns}\" xmlns:xlink=\"http://www.w3.org/1999/xlink\" class=\"d-red\"><g class=\"d-grid\"><rect wh=\"3\" text=\"t\"/></g></svg>"),
+        format!("<svg xmlns=\"{ns}\"/>"),
+        format!("<svg xmlns:x=\"urn:x\" xmlns=\"{ns}\"/>"),
+    ];
+    let st = run_space(real.len(), |i| check(&real[i], "real-svg", &c1, &c2));
+    rep.absorb("real-svg", st);
     rep.assume("the first-pass output under use_local_styles carries a random root id; the relation is checked on the output actually obtained, so no cross-run comparison is involved");
     rep.finish()
 }
